@@ -53,6 +53,7 @@ pub fn kind_docs() -> Vec<Value> {
         json!({"l♭":[{"_id":"x"}], "e":{}}),                        // 9 empty objects
         json!({"o♭":{"_id":"!x","v":1}}),                           // 10 '!' id in flattened non-array field
         json!({"l♭":[[x()],[y()]]}),                                // 11 nested plain arrays inside a flattened array
+        json!({"l♭":["s", 1, null, true, x(), "!e", 2.5]}),         // 12 scalars directly inside a flattened array
     ]
 }
 
